@@ -559,6 +559,11 @@ def run(R):
     with R.guard('C04.R8'):
         check_trailers_only_read(R, tonic, 'C04.R8')
 
+    R.describe('C04.R9', 'once the trailers frame (the status) has been read the decoder stops reading the body: poll_frame reports "stop" for a trailers frame, so a connection error arriving behind the trailers cannot replace the status they carried (C02.R4 instances re-evaluated under this id)')
+    with R.guard('C04.R9'):
+        import C02
+        C02.check_poll_frame_outcomes(R, tonic, 'C04.R9')
+
     R.describe('C04.R7', 'Status::code_from_h2 maps HTTP/2 reasons as spec/h2_reason.json; every h2 error conversion routes through it; to_h2_error: Cancelled -> CANCEL else INTERNAL_ERROR')
     with R.guard('C04.R7'):
         h2 = spec('h2_reason')
